@@ -72,3 +72,74 @@ Proof.
   repeat split; assumption.
 Qed.
 Print Assumptions byteswapped_message_received.
+
+(* ---- streams: any number of well-formed messages back to back, cut into reads at arbitrary places:
+   the loader queues exactly one message per message sent, in order, each with exactly its bytes, never
+   declares corruption and leaves no byte over; the reader reads every body back ---- *)
+From DV Require Import Proofs.LoaderProofs Proofs.LoadLocal.
+From Coq Require Import Lia ZifyN ZifyNat.
+
+Definition delivered (m : smsg) (msg : message) : Prop :=
+  m_header msg ++ m_body msg = spec_encode_message m /\ m_body msg = m_bodyb m /\ m_nfds msg = 0 /\
+  Forall2 (hf_ok (s_le m)) (s_fields m) (m_fields msg) /\
+  read_all (s_le m) (s_sig m) (m_body msg) = inl (s_body m).
+
+Definition sendable (m : smsg) : Prop := wf_msg m = true /\ spec_nfds (s_fields m) = 0.
+
+Lemma qm_stream : forall ms f msgs0, Forall sendable ms ->
+  (length (concat (map spec_encode_message ms)) < f)%nat ->
+  exists msgs,
+    queue_messages f (mkLoader (concat (map spec_encode_message ms)) false V_VALID msgs0 0 DBUS_MAXIMUM_MESSAGE_LENGTH)
+    = mkLoader [] false V_VALID (msgs0 ++ msgs) 0 DBUS_MAXIMUM_MESSAGE_LENGTH /\ Forall2 delivered ms msgs.
+Proof.
+  induction ms as [|m ms IH]; intros f msgs0 HS Hf.
+  - exists []. rewrite app_nil_r. split; [|constructor].
+    apply qm_short; cbn; [reflexivity|lia].
+  - inversion HS as [|? ? [W Hn] HS']; subst.
+    destruct f as [|f]; [lia|]. cbn [map concat] in *.
+    set (rest := concat (map spec_encode_message ms)) in *.
+    destruct (loader_complete_clean m rest 0 W ltac:(lia)) as (Hh & hs & HF & Hl & He). cbv zeta in *.
+    rewrite qm_S. cbn [l_buf l_corrupted l_reason l_msgs l_fds l_max].
+    pose proof (encode_len m) as HL.
+    replace (nlen (spec_encode_message m ++ rest) <? DBUS_MINIMUM_HEADER_SIZE) with false
+      by (rewrite nlen_app, HL; unfold m_hlen; change DBUS_MINIMUM_HEADER_SIZE with 16; lia).
+    rewrite Hh, Hl. cbn [m_nfds].
+    rewrite skipn_app_exact by (rewrite <- HL; symmetry; apply nlen_len). rewrite Hn. change (0 - 0) with 0.
+    assert (Hf' : (length rest < f)%nat).
+    { rewrite app_length in Hf. assert (16 <= nlen (spec_encode_message m)) by (rewrite HL; unfold m_hlen; lia).
+      unfold nlen in *. lia. }
+    destruct (IH f (msgs0 ++ [mkMsg (firstn (N.to_nat (m_hlen m)) (spec_encode_message m)) (m_bodyb m) hs 0]) HS' Hf') as (msgs & E & F2).
+    eexists (_ :: msgs). rewrite E, <- app_assoc. split; [reflexivity|].
+    constructor; [|exact F2]. unfold delivered. cbn [m_header m_body m_nfds m_fields].
+    split; [exact He|]. split; [reflexivity|]. split; [reflexivity|]. split; [exact HF|].
+    apply (reader_msg m). exact (proj1 (proj1 (wf_msg_iff m) W)).
+Qed.
+
+Theorem stream_delivery ms chunks : Forall sendable ms ->
+  concat chunks = concat (map spec_encode_message ms) ->
+  exists msgs, outcome (feed_all loader_new chunks) = (false, msgs) /\ Forall2 delivered ms msgs.
+Proof.
+  intros HS Hc. rewrite chunking_unconditional, Hc.
+  unfold feed, loader_new. cbn [l_buf l_corrupted l_reason l_msgs l_fds l_max app]. change (0 + 0) with 0.
+  destruct (qm_stream ms (S (length (concat (map spec_encode_message ms)))) [] HS ltac:(lia)) as (msgs & E & F2).
+  exists msgs. rewrite E. split; [reflexivity|exact F2].
+Qed.
+Print Assumptions stream_delivery.
+
+(* non-vacuity: two different messages (one with a nested body), cut inside the first fixed header, inside the
+   first body and inside the second header *)
+Definition ex_stream_a : smsg :=
+  build true 4 0 7 [ESet 1 (VStr 111 [47;97]); ESet 2 (VStr 115 [97;46;98]); ESet 3 (VStr 115 [83])]
+        [VNum 121 5; VStr 115 [104;105]; VArr (TBasic 105) [VNum 105 1; VNum 105 2]; VVar (TBasic 115) (VStr 115 [97])].
+Definition ex_stream_b : smsg :=
+  build false 1 0 9 [ESet 1 (VStr 111 [47]); ESet 3 (VStr 115 [77])] [].
+Definition ex_stream_bytes := spec_encode_message ex_stream_a ++ spec_encode_message ex_stream_b.
+Definition ex_stream_chunks : list bytes :=
+  [firstn 5 ex_stream_bytes; firstn 90 (skipn 5 ex_stream_bytes); firstn 30 (skipn 95 ex_stream_bytes); skipn 125 ex_stream_bytes].
+Example ex_stream_premises :
+  wf_msg ex_stream_a = true /\ spec_nfds (s_fields ex_stream_a) = 0 /\
+  wf_msg ex_stream_b = true /\ spec_nfds (s_fields ex_stream_b) = 0 /\
+  concat ex_stream_chunks = concat (map spec_encode_message [ex_stream_a; ex_stream_b]) /\
+  Nat.ltb 125 (length ex_stream_bytes) = true /\
+  length (l_msgs (feed_all loader_new ex_stream_chunks)) = 2%nat.
+Proof. vm_compute. repeat split; try reflexivity. Qed.
